@@ -139,7 +139,8 @@ class XmlSchema(InterfaceDocumentBase):
             schema = self.get_schema_node(pref)
 
             # append import tags
-            for namespace in self.interface.imports[self.interface.nsmap[pref]]:
+            for namespace in sorted(
+                          self.interface.imports[self.interface.nsmap[pref]]):
                 import_ = etree.SubElement(schema, ns.XSD('import'))
 
                 import_.set("namespace", namespace)
